@@ -33,7 +33,7 @@ def check_run(crate, rep, cfg):
     for name in ("template::find_parents", "template::check_include_cycles"):
         calls = list(find_calls(fin, [name]))
         key = "C11.RUN:finalize:%s" % name.rsplit("::", 1)[-1]
-        what = ("%s is called for every template (inside the loop over the template map), its Err is propagated, and the call precedes the commit"
+        what = ("%s is called unconditionally for every template on every finalize (inside the loop over the template map), its Err is propagated, and the call precedes the commit"
                 % name.rsplit("::", 1)[-1])
         ok = False
         where = fin.where(0)
@@ -52,7 +52,9 @@ def check_run(crate, rep, cfg):
                 if a0["k"] in ("copy", "move") and a0["pl"]["l"] == dest:
                     tried = True
             before_commit = bool(commit) and all(not fin.dominates(cb, bb) and bb not in fin.reach_from(cb) for cb in commit)
-            if in_loop and from_map and tried and before_commit:
+            from engine import runs_every_iteration
+            every, why = runs_every_iteration(fin, bb)
+            if in_loop and from_map and tried and before_commit and every:
                 ok = True
         (rep.ok if ok else rep.bad)("C11.RUN", key, where, what if ok else what + " — VIOLATED")
     # the loop iterates over all keys of self.templates
